@@ -113,6 +113,8 @@ type pathExec struct {
 	floatStrings    map[string][2]*smt.Term
 	clock           int
 	initFailed      map[string]string
+	spec            int
+	fusions, merges int
 }
 
 func (px *pathExec) freshVar(name string, s smt.Sort) *smt.Term {
@@ -158,6 +160,9 @@ func (fr *frame) decide(cond *smt.Term, tag string) bool {
 	px := fr.i.px
 	if cond.IsConst() {
 		return cond.U == 1
+	}
+	if px.spec > 0 {
+		panic(specAbort{})
 	}
 	c := px.ctx
 	if px.inPrefix() {
@@ -229,6 +234,9 @@ func (fr *frame) decide(cond *smt.Term, tag string) bool {
 // choose forks n ways (structure choice; always feasible).
 func (fr *frame) choose(n int, tag string) int {
 	px := fr.i.px
+	if px.spec > 0 {
+		panic(specAbort{})
+	}
 	if n <= 1 {
 		return 0
 	}
@@ -260,6 +268,9 @@ func (fr *frame) concretize(v value, tag string) value {
 	var back func(u uint64) value
 	switch s := v.(type) {
 	case SymInt:
+		if px.spec > 0 {
+			panic(specAbort{})
+		}
 		t = s.T
 		back = func(u uint64) value { return mkSymInt(px.ctx.BVConst(u, kindWidth(s.K)), s.K, 0) }
 	case SymBool:
@@ -531,6 +542,7 @@ type HarnessRun struct {
 	HavocKernels  map[string]int
 	HavocDecs     int
 	FPOps         int
+	Merges        int
 	UnknownPaths  int
 	MaxPaths      int
 	Truncated     bool
@@ -560,6 +572,8 @@ type Env struct {
 	Verbose    bool
 	Tier       string
 	ModPath    string
+	NoMerge    bool
+	Progress   bool
 	Sem        chan struct{} // global cap on concurrently executing paths (across harnesses)
 }
 
@@ -600,6 +614,25 @@ func (e *Env) Explore(name string, fn *ssa.Function) (*HarnessRun, *SolverStats)
 		h.deadline = time.Now().Add(e.Deadline)
 	}
 	stats := &SolverStats{ByEngine: map[string]int{}}
+	stopTick := make(chan struct{})
+	if e.Progress {
+		go func() {
+			t0 := time.Now()
+			tk := time.NewTicker(15 * time.Second)
+			defer tk.Stop()
+			for {
+				select {
+				case <-stopTick:
+					return
+				case <-tk.C:
+					h.mu.Lock()
+					fmt.Printf("  [progress %s %.0fs] paths=%d queue=%d inflight=%d completed=%d pruned=%d errors=%d violations=%d\n", name, time.Since(t0).Seconds(), h.Paths, len(h.queue), h.inflight, h.Completed, h.Pruned, len(h.Errors), len(h.Violations))
+					h.mu.Unlock()
+				}
+			}
+		}()
+	}
+	defer close(stopTick)
 	var wg sync.WaitGroup
 	var smu sync.Mutex
 	for w := 0; w < e.Workers; w++ {
@@ -704,6 +737,7 @@ func (h *HarnessRun) merge(px *pathExec) {
 	}
 	h.HavocDecs += px.havocDecisions
 	h.FPOps += px.fpOps
+	h.Merges += px.merges + px.fusions
 	h.GoroutinesRun += px.goroutinesRun
 	if px.pcUnknown {
 		h.UnknownPaths++
